@@ -263,6 +263,21 @@ fn attribute(w: &Arc<World>, only_objs: Option<&[u8]>, ctx: &str, snap: &[rt::Ta
             .map(|(id, a)| (a.obj, Some(id), if a.ret == 0 { u64::MAX } else { a.ret }, a.start != 0, a.inv))
             .collect()
     });
+    // a suspension that is still in force (requested and neither resumed nor cancelled, whether or not its owner has looked at the
+    // future yet) legitimately holds everything that was invoked after it: it is "ahead" of those operations
+    let mut unfinished = unfinished;
+    w.with(|i| {
+        for (o, ob) in i.objs.iter().enumerate() {
+            for su in ob.suspensions.iter() {
+                if su.resumed_at == 0 && !su.fut_dropped {
+                    let sop = &i.ops[su.op];
+                    if sop.ret != 0 {
+                        unfinished.push((o, Some(su.op), sop.ret, false, sop.inv));
+                    }
+                }
+            }
+        }
+    });
     if cands.is_empty() {
         return waiting;
     }
